@@ -23,6 +23,7 @@ func init() {
 	register(&core.Rule{ID: "R-CTX-SELECT", Props: []string{"C03"}, Doc: "in every goroutine a Stop waits for, each potentially blocking channel operation (plain send/receive, blocking select) has an arm on a context Done() channel, or falls under a derived exemption (ticker/timer channel, semaphore released by defer, consumer that outlives the sender, capacity argument)", Run: ruleCtxSelect})
 	register(&core.Rule{ID: "R-NIL-CLIENT", Props: []string{"C03"}, Doc: "archiver.Client / ClientWithProxy are created under complementary config.Proxy conditions; every dereference is dominated by a nil test of the same field, by the same config condition, or by the assignment itself", Run: ruleNilClient})
 	register(&core.Rule{ID: "R-WARC-CLOSE", Props: []string{"C03"}, Doc: "archiver.Stop: after cancel+wg.Wait every path to return calls Close() on each client field unless that field is nil, each Close preceded by that client's WaitGroup.Wait()", Run: ruleWarcClose})
+	register(&core.Rule{ID: "R-ERRCHAN-DRAIN", Props: []string{"C03"}, Doc: "each WARC client's ErrChan has a reader goroutine that leaves only when the channel is closed: the warc module reports errors with a blocking send while holding the client's WaitGroup, so a reader that stops early wedges archiver.Stop", Run: ruleErrChanDrain})
 	register(&core.Rule{ID: "R-WATCHER-EXIT", Props: []string{"C03"}, Doc: "watcher goroutines: the Done arm of the watcher's select reaches a return and the stop functions cancel before they wait", Run: ruleWatcherExit})
 }
 
@@ -979,4 +980,79 @@ func flagLimitsLoop(fn *ssa.Function, si ir.SelectInfo, arm ir.SelectArm) bool {
 		}
 	}
 	return found
+}
+
+func ruleErrChanDrain(r *core.Reporter) {
+	p := r.P
+	readers := map[string]int{}
+	for _, fn := range p.FuncsInPkg(rel(pkgArch)) {
+		var recvs []ssa.Instruction
+		field := ""
+		allInstrs(fn, func(in ssa.Instruction) {
+			check := func(ch ssa.Value) {
+				pth := ir.Path(ch)
+				if strings.HasSuffix(pth, ".ErrChan") {
+					recvs = append(recvs, in)
+					if strings.Contains(pth, ".ClientWithProxy.") {
+						field = "ClientWithProxy"
+					} else if strings.Contains(pth, ".Client.") {
+						field = "Client"
+					}
+				}
+			}
+			switch x := in.(type) {
+			case *ssa.UnOp:
+				if x.Op == token.ARROW {
+					check(x.X)
+				}
+			case *ssa.Select:
+				for _, st := range x.States {
+					if st.Dir == types.RecvOnly {
+						check(st.Chan)
+					}
+				}
+			}
+		})
+		if len(recvs) == 0 {
+			continue
+		}
+		r.Analysed(fn)
+		key := core.FuncName(fn) + "/" + field + ".ErrChan"
+		// exits only on closed channel
+		okOnlyClosed := true
+		var bad ssa.Instruction
+		for _, rc := range recvs {
+			u, isU := rc.(*ssa.UnOp)
+			if !isU || !u.CommaOk {
+				okOnlyClosed, bad = false, rc
+				continue
+			}
+			var okv ssa.Value
+			for _, rr := range ir.Referrers(u) {
+				if e, isE := rr.(*ssa.Extract); isE && e.Index == 1 {
+					okv = e
+				}
+			}
+			for _, ret := range ir.Returns(fn) {
+				if _, g := ir.GuardedBy(fn, ir.Entry(fn), ret, false, func(a ir.Atom) bool { return a.V != nil && a.V == okv }); !g {
+					okOnlyClosed, bad = false, ret
+				}
+			}
+			// it loops
+			if !ir.Reach([]ir.Pt{ir.After(rc)}, ir.Opts{}).Reached[rc] {
+				okOnlyClosed, bad = false, rc
+			}
+		}
+		if okOnlyClosed {
+			readers[field]++
+			r.Held(key, len(recvs), "reader loops until the channel is closed")
+		} else {
+			r.Violated(key, p.InstrPos(bad), "the ErrChan reader can stop before the channel is closed: a WARC-side error reported afterwards blocks inside the warc module while holding the client's WaitGroup, and archiver.Stop never returns")
+		}
+	}
+	for _, f := range []string{"Client", "ClientWithProxy"} {
+		if readers[f] == 0 {
+			r.Violated("reader/"+f, "", "no goroutine drains %s.ErrChan until close", f)
+		}
+	}
 }
